@@ -1074,7 +1074,12 @@ func (p *Parser) parseClassElement() ClassElement {
 		if p.tt == OpenBraceToken {
 			prevYield, prevAwait, prevRetrn := p.yield, p.await, p.retrn
 			p.yield, p.await, p.retrn = false, true, false
-			elem := ClassElement{StaticBlock: p.parseBlockStmt("class static block")}
+			// a static block is a variable scope of its own: a var declared in it does not leave the class
+			block := &BlockStmt{}
+			parent := p.enterScope(&block.Scope, true)
+			block.List = p.parseStmtList("class static block")
+			p.exitScope(parent)
+			elem := ClassElement{StaticBlock: block}
 			p.yield, p.await, p.retrn = prevYield, prevAwait, prevRetrn
 			return elem
 		}
